@@ -154,10 +154,6 @@ impl Ls {
             Err(RecvTimeoutError::Timeout) => Recv::Timeout,
         }
     }
-
-    pub fn alive(&mut self) -> bool {
-        matches!(self.child.try_wait(), Ok(None))
-    }
 }
 
 impl Drop for Ls {
@@ -263,11 +259,6 @@ impl OpenDoc {
     /// the background analysis ended and the document was published after it
     pub fn done(&self) -> bool {
         self.publish_after_end
-    }
-
-    /// at least one answer arrived for the opened document
-    pub fn answered(&self) -> bool {
-        self.publishes > 0
     }
 
     /// the diagnostics as comparable lines
